@@ -138,6 +138,33 @@ func (w *World) ApplySC(a *SCAction) bool {
 			}
 			w.control(s, rcv, fn, [][]byte{t.ID}, "")
 		}
+	case "forge-control":
+		// a control call from a metachain contract that is NOT the ESDT system contract (staking,
+		// delegation, ...): only the ESDT system contract has authority (C03)
+		caller := unhx(a.Addr2)
+		if len(caller) != 32 || ShardOf(caller, w.Cfg.NumShards) != vmcommon.MetachainShardId || bytes.Equal(caller, vmcommon.ESDTSCAddress) {
+			return false
+		}
+		var args [][]byte
+		rcv := addr
+		dst := shard
+		switch a.Fn {
+		case spec.FnFreeze, spec.FnUnFreeze, spec.FnWipe:
+			args = [][]byte{t.ID}
+		case spec.FnPause, spec.FnUnPause:
+			args = [][]byte{t.ID}
+			rcv = vmcommon.SystemAccountAddress
+		case spec.FnSetRole, spec.FnUnSetRole:
+			if len(a.Roles) == 0 {
+				return false
+			}
+			args = [][]byte{t.ID, []byte(a.Roles[0])}
+		default:
+			return false
+		}
+		m := w.control(dst, rcv, a.Fn, args, "")
+		m.Snd = append([]byte{}, caller...)
+		w.Stats.Probes["control-from-other-metachain-contract"]++
 	case "drop":
 		caller := unhx(a.Addr2)
 		if len(caller) != 32 || ShardOf(caller, w.Cfg.NumShards) != vmcommon.MetachainShardId {
